@@ -426,8 +426,9 @@ func tokenReplay(prop string) replayFn {
 			if why := wellFormedReal(b.tok); why != "" {
 				if prop == "C10" {
 					rep.violation(json.RawMessage(raw), "a well-formed token", why, "C10: a constructor returned an ill-formed token")
+					continue
 				}
-				continue
+				// (C07 speaks of every token a constructor accepts: it is sealed and unsealed like the others)
 			}
 			if prop == "C10" {
 				rep.sample(map[string]any{"case": json.RawMessage(raw), "constructed": true, "well_formed": true})
